@@ -530,6 +530,14 @@ func CmpBV(op Op, a, b *Term) *Term {
 			return False
 		}
 	}
+	// normal form: only strict comparisons are built (a <= b  ==  not (b < a)), so that the
+	// literal knowledge of a path recognises both spellings of the same test
+	switch op {
+	case OULe:
+		return Not(TS.mk(OULt, BoolSort, 0, "", b, a))
+	case OSLe:
+		return Not(TS.mk(OSLt, BoolSort, 0, "", b, a))
+	}
 	return TS.mk(op, BoolSort, 0, "", a, b)
 }
 
